@@ -34,6 +34,24 @@ def rm_dir(d) -> None:
     shutil.rmtree(d, ignore_errors=True)
 
 
+def sweep_dead(prefix: str = "ladsim") -> int:
+    """remove scratch worlds left behind by processes that no longer exist (killed workers, interrupted runs)"""
+    n = 0
+    for d in Path(SCRATCH_ROOT).glob(f"{prefix}-*-*"):
+        try:
+            pid = int(d.name.split("-")[1])
+        except (IndexError, ValueError):
+            continue
+        try:
+            os.kill(pid, 0)
+        except ProcessLookupError:
+            shutil.rmtree(d, ignore_errors=True)
+            n += 1
+        except PermissionError:
+            pass
+    return n
+
+
 # --------------------------------------------------------------------------
 # NetCDF: grid and forcing
 # --------------------------------------------------------------------------
